@@ -71,9 +71,10 @@ pub fn bloom_history(ctx: &mut Ctx, nops: u64) {
     // clone_from into a filter of another shape / hasher that already holds other content; the
     // receiver must then be a copy in every respect and evolve like the source
     if ctx.rng.chance(1, 2) {
-        let bh2 = ctx.rand_hasher();
+        // every dimension varies on its own: another hasher or the same one, another m, another k
+        let bh2 = if ctx.rng.chance(1, 2) { ctx.rand_hasher() } else { bh };
         ctx.hasher(bh2);
-        let (m2, k2) = *ctx.rng.pick(&[(m + 1, k), (m, k + 1), ((m / 2).max(1), k.max(1)), (2 * m + 3, k.max(1)), (m, k.max(1))]);
+        let (m2, k2) = *ctx.rng.pick(&[(m + 1, k), (m, k + 1), (m, k + 3), (m, (k / 2).max(1)), ((m / 2).max(1), k.max(1)), (2 * m + 3, k.max(1)), (m, k.max(1))]);
         ctx.op(format!("bloom.new 7 {} {}", m2, k2));
         ctx.hasher(bh);
         for _ in 0..ctx.rng.clone().below(5) {
@@ -138,10 +139,11 @@ pub fn set_history(ctx: &mut Ctx, nops: u64) {
 pub fn cms_history(ctx: &mut Ctx, nops: u64) {
     let bh = ctx.rand_hasher();
     ctx.hasher(bh);
-    let (w, d) = if ctx.rng.chance(4, 5) {
-        (ctx.rng.range(1, 6), ctx.rng.range(1, 6))
-    } else {
-        (ctx.rng.range(7, 300), ctx.rng.range(1, 8))
+    let (w, d) = match ctx.rng.below(10) {
+        0 | 1 => (ctx.rng.range(7, 300), ctx.rng.range(1, 8)),
+        // more rows than any fixed-size scratch buffer would hold (delta down to e^-70)
+        2 => (ctx.rng.range(2, 9), *ctx.rng.pick(&[33u64, 40, 64, 65, 70])),
+        _ => (ctx.rng.range(1, 6), ctx.rng.range(1, 6)),
     };
     let ct = *ctx.rng.pick(&["u8", "u16", "u32", "u64", "usize"]);
     ctx.stat(&format!("cms.ctype.{}", ct), 1);
@@ -228,9 +230,9 @@ pub fn cms_history(ctx: &mut Ctx, nops: u64) {
     }
     // clone_from into a sketch of another shape (narrower / wider / other depth), other hasher
     if ctx.rng.chance(1, 2) {
-        let bh3 = ctx.rand_hasher();
+        let bh3 = if ctx.rng.chance(1, 2) { ctx.rand_hasher() } else { bh };
         ctx.hasher(bh3);
-        let (w2, d2) = *ctx.rng.pick(&[((w / 2).max(1), d), (w + 3, d), (w, d + 1), (2 * w + 1, (d / 2).max(1)), (1, 1)]);
+        let (w2, d2) = *ctx.rng.pick(&[((w / 2).max(1), d), (w + 3, d), (w, d + 1), (w, (d / 2).max(1)), (2 * w + 1, (d / 2).max(1)), (1, 1)]);
         ctx.op(format!("cms.new 5 {} {} {}", ct, w2, d2));
         ctx.hasher(bh);
         for _ in 0..ctx.rng.clone().below(4) {
@@ -579,6 +581,17 @@ pub fn res_history(ctx: &mut Ctx) {
                 }
                 ctx.op(format!("res.extendf 1 {}", mixed.join(" ")));
                 ctx.stat("res.extendf", 1);
+            } else if ctx.rng.chance(1, 4) {
+                // the iterator fails (panics) after j items; the caller catches it and carries on:
+                // exactly the j consumed items count
+                let j = ctx.rng.below(len + 1);
+                ctx.op(format!("res.extendp 1 {} {}", j, items.join(" ")));
+                ctx.op("res.get 1".into());
+                ctx.stat("res.extendp", 1);
+                // the items that were not consumed arrive later, one by one
+                for x in (i + j)..(i + len) {
+                    ctx.op(format!("res.add 1 {}", x));
+                }
             } else {
                 ctx.op(format!("res.extend 1 {}", items.join(" ")));
             }
@@ -800,6 +813,26 @@ pub fn heap_history(ctx: &mut Ctx, n: u64) {
             ctx.op("heap.empty 1".into());
         }
     }
+    // blind stretches: a read, clear(), then exactly as many adds as before with no read in between,
+    // then a read (anything memoised by the first read must be gone)
+    if ctx.rng.chance(1, 2) {
+        ctx.op(format!("heap.new 5 {} {} {}", k, w, d));
+        let sl = ctx.rng.range(1, 9);
+        for life in 0..3u64 {
+            for _ in 0..sl {
+                let id = 100 * (life + 1) + ctx.rng.below(alpha.min(4));
+                let class = id % nclass;
+                let cols: Vec<String> = crate::exec::heap_cols(w as usize, d as usize, class).iter().map(|c| c.to_string()).collect();
+                ctx.op(format!("heap.add 5 {} {} {}", id, class, cols.join(" ")));
+            }
+            ctx.op("heap.iter 5".into());
+            ctx.op("heap.empty 5".into());
+            if life < 2 {
+                ctx.op("heap.clear 5".into());
+            }
+        }
+        ctx.stat("heap.blind", 1);
+    }
     // clone_from into a heap with another k / sketch shape that holds other elements
     if ctx.rng.chance(1, 2) {
         let k2 = *ctx.rng.pick(&[k.saturating_add(2), (k / 2).max(1), 1, k, 9]);
@@ -838,7 +871,8 @@ pub fn td_history(ctx: &mut Ctx, n: u64) {
 pub fn td_history_shaped(ctx: &mut Ctx, n: u64, force_atom: Option<bool>) {
     let scale = ctx.rng.below(4);
     let delta = if force_atom.is_some() { *ctx.rng.pick(&[10.0f64, 30.0, 100.0, 1000.0]) } else { *ctx.rng.pick(&[1.1f64, 2.0, 4.0, 10.0, 100.0, 1000.0]) };
-    let bl = *ctx.rng.pick(&[0u64, 1, 5, 10, 100]);
+    // (rarely) a backlog bound at the top of the usize range: "compress on reads only"
+    let bl = if ctx.rng.chance(1, 25) { *ctx.rng.pick(&[u64::MAX, 1u64 << 62, (1u64 << 63) + 5]) } else { *ctx.rng.pick(&[0u64, 1, 5, 10, 100]) };
     ctx.stat(&format!("td.scale.{}", scale), 1);
     ctx.op(format!("td.new 1 {} {} {}", scale, fx(delta), bl));
     ctx.op("td.getters 1".into());
@@ -852,7 +886,7 @@ pub fn td_history_shaped(ctx: &mut Ctx, n: u64, force_atom: Option<bool>) {
     for q in [0.0, 1.0, -0.0] {
         ctx.op(format!("td.quantile 1 {}", fx(q)));
     }
-    let shape = if force_atom.is_some() { 6 } else { ctx.rng.below(7) };
+    let shape = if force_atom.is_some() { 6 } else { ctx.rng.below(8) };
     let near = *ctx.rng.pick(&[0.1f64, 0.3, 1e-3, 7.7, 123.456, 1e10 / 3.0]);
     let weighted = if force_atom.is_some() { true } else if shape == 6 { ctx.rng.chance(2, 3) } else { ctx.rng.chance(1, 3) };
     // shape 6: a heavy atom sitting exactly at max() (or min()), spread over several centroids
@@ -871,6 +905,8 @@ pub fn td_history_shaped(ctx: &mut Ctx, n: u64, force_atom: Option<bool>) {
             0 => t as f64,
             1 => (n - t) as f64,
             2 => ctx.rng.below(5) as f64,                      // heavy ties
+            // non-negative data with a share of negative zeros (-0.0 == 0.0, but its bit pattern is the largest)
+            7 => if ctx.rng.chance(1, 3) { -0.0 } else if ctx.rng.chance(1, 4) { 0.0 } else { ctx.rng.f01() * 3.0 },
             3 => (ctx.rng.f01() * 12.0).exp() * if ctx.rng.chance(1, 2) { 1.0 } else { -1.0 }, // heavy tails
             // (almost) equal values: sum/count rounding puts centroid means an ulp outside [min, max]
             5 => near * (1.0 + *ctx.rng.pick(&[0.0, 0.0, 0.0, 1e-16, 2.3e-16, -1.2e-16, 1e-3])),
@@ -887,7 +923,7 @@ pub fn td_history_shaped(ctx: &mut Ctx, n: u64, force_atom: Option<bool>) {
         };
         if weighted {
             let w = match ctx.rng.below(9) {
-                0 => 0.0,
+                0 => if ctx.rng.chance(1, 3) { -0.0 } else { 0.0 },
                 1 => 0.5,
                 2 => 3.0,
                 3 => 1e-6,
@@ -1006,8 +1042,39 @@ pub fn td_history_shaped(ctx: &mut Ctx, n: u64, force_atom: Option<bool>) {
         for o in ["td.empty 8", "td.min 8", "td.max 8", "td.count 8", "td.ncent 8"] {
             ctx.op(o.into());
         }
+        // reads on a digest whose lowest centroid weighs a subnormal (half of it underflows to 0)
+        ctx.op(format!("td.new 9 {} {} {}", scale, fx(delta), bl));
+        ctx.op(format!("td.insertw 9 {} {}", fx(-2.0), fx(w)));
+        ctx.op(format!("td.quantile 9 {}", fx(0.0)));
+        ctx.op(format!("td.quantile 9 {}", fx(0.3)));
+        ctx.op(format!("td.cdf 9 {}", fx(-2.0)));
+        for x in [1.0, 2.0, 3.0, 4.0] {
+            ctx.op(format!("td.insert 9 {}", fx(x)));
+        }
+        for q in [0.0, 1e-300, 0.5, 1.0] {
+            ctx.op(format!("td.quantile 9 {}", fx(q)));
+        }
+        ctx.op(format!("td.cdf 9 {}", fx(-2.0)));
+        ctx.op(format!("td.cdf 9 {}", fx(0.0)));
         ctx.op(format!("td.insertw 1 {} {}", fx(1e9), fx(w)));
         for o in ["td.empty 1", "td.min 1", "td.max 1"] {
+            ctx.op(o.into());
+        }
+    }
+    // a finite insert whose product x*w overflows (sum() is +inf then, which is outside what C16 can
+    // promise): its weight, its value and its presence still count (count / min / max / is_empty)
+    if ctx.rng.chance(1, 4) {
+        ctx.stat("td.product.overflow", 1);
+        ctx.op(format!("td.new 10 {} {} {}", scale, fx(delta), bl));
+        let (x, w) = *ctx.rng.pick(&[(1e308f64, 4.0f64), (1e200, 1e200), (f64::MAX, 2.0), (3e307, 7.0)]);
+        ctx.op(format!("td.insertw 10 {} {}", fx(x), fx(w)));
+        for o in ["td.empty 10", "td.count 10", "td.min 10", "td.max 10"] {
+            ctx.op(o.into());
+        }
+        for t in 0..6 {
+            ctx.op(format!("td.insertw 10 {} {}", fx(1.0 + t as f64), fx(if t % 2 == 0 { 1.0 } else { 2.5 })));
+        }
+        for o in ["td.count 10", "td.min 10", "td.max 10", "td.empty 10", "td.ncent 10"] {
             ctx.op(o.into());
         }
     }
